@@ -17,7 +17,7 @@
    Skip \subseteq {1,2,3,4,6,7}: application moves left out because they fall under a recorded finding
         (the same predicates as the harness's --kf-skip).                                            *)
 EXTENDS IpcLife
-CONSTANTS MaxConn, MaxBody, MaxTop, MaxRetry, Fix, Skip
+CONSTANTS MaxConn, MaxBody, MaxTop, MaxRetry, MaxSvcRef, Fix, Skip
 
 VARIABLES im,      \* implementation state: [nc, ist, rc, freed, torn, lst, jobsq, retries, cur, svcRc, svcFreed]
           ex,      \* control stack of the single thread: frames [p, c, pc, x, k, r, d]
@@ -107,6 +107,16 @@ AppRate(base) ==
                       !.tornUse = @ \/ (~Has(Fix, 4) /\ \E i \in 1..Len(im.lst) : im.torn[im.lst[i]])
                                     \/ (~Has(Fix, 7) /\ \E i \in 1..Len(im.lst) : im.ist[im.lst[i]] = SHUTTING_DOWN)]
   /\ NoObs /\ ex' = base /\ UNCHANGED <<im, retv>>
+AppSvcRef(base) ==     \* qb_ipcs_ref / qb_ipcs_unref of a reference taken that way
+  /\ SvcHeld /\ svcApp < MaxSvcRef
+  /\ im' = [im EXCEPT !.svcRc = @ + 1]
+  /\ fl' = [fl EXCEPT !.uaf = @ \/ im.svcFreed]
+  /\ Mon(TRUE, SvcRef) /\ ex' = base /\ UNCHANGED retv
+AppSvcUnref(base) ==
+  /\ svcApp > 0
+  /\ im' = [im EXCEPT !.svcRc = @ - 1, !.svcFreed = (im.svcRc = 1)]
+  /\ fl' = [fl EXCEPT !.uaf = @ \/ im.svcFreed]
+  /\ Mon(TRUE, SvcUnref) /\ ex' = base /\ UNCHANGED retv
 AppDestroy ==
   /\ ~svcD /\ ~KfDestroy
   /\ Mon(SvcDestroyOK, SvcDestroyDo)
@@ -115,7 +125,7 @@ AppDestroy ==
 
 AppOp(base) ==
   \/ \E c \in C : AppDisc(c, base) \/ AppRef(c, base) \/ AppUnref(c, base) \/ AppSend(c, base)
-  \/ AppIterFirst(base) \/ AppIterNext(base) \/ AppRate(base)
+  \/ AppIterFirst(base) \/ AppIterNext(base) \/ AppRate(base) \/ AppSvcRef(base) \/ AppSvcUnref(base)
 
 -----------------------------------------------------------------------------
 (* the main loop *)
@@ -322,5 +332,5 @@ NoTornUse == ~fl.tornUse
    (the dispatcher's own temporary reference of repair 2 is dropped before it returns) *)
 RcAgrees == (ex = <<>> /\ ~viol) => \A c \in Ids : Live(c) => im.rc[c] = conn[c].lib + conn[c].app
 (* the service object goes exactly when its creator and every connection have let go *)
-SvcLifetime == (ex = <<>> /\ ~viol) => (im.svcFreed <=> (svcD /\ \A c \in Ids : ~Live(c)))
+SvcLifetime == (ex = <<>> /\ ~viol) => (im.svcFreed <=> (svcD /\ svcApp = 0 /\ \A c \in Ids : ~Live(c)))
 =============================================================================
